@@ -122,6 +122,7 @@ def run(ctx):
                     ok = len(bits) == len(set(bits)) and (t.size is None or all(0 <= b < t.size for b in bits))
                     ctx.ob("C08.R5", "%s:%s" % (t.cdef._module.rel, t.name), "field `%s` %s: parts disjoint and inside the %s-bit token" % (f, ranges, t.size), ok, construct="field-bits:%s.%s" % (t.name, f))
     _x86_register_fields(ctx)
+    _arm_reference(ctx)
 
 
 # mnemonic pairs that are architecturally the same instruction (aliases)
@@ -194,3 +195,67 @@ def _x86_register_fields(ctx):
                         continue
                     ctx.ob("C08.R6", site, "3-bit field `%s` receives `%s`, a value below 8" % (fld, norm(val)), ok, construct="field3:%s.%s:%s" % (cls.name, fld, norm(val)), node=n)
     ctx.need(n_cmp >= 3 and n_set >= 15, "x86_64 register field sites not found (%d comparisons, %d field stores)" % (n_cmp, n_set))
+
+
+# ARM A32 operand placement per the ARM Architecture Reference Manual (ARMv7-A, A8.8): class -> operand -> (lo, hi)
+ARM_REFERENCE = {
+    "Mul1": {"rd": (16, 20), "rn": (0, 4), "rm": (8, 12)},                      # MUL   cond 0000000S Rd 0000 Rm 1001 Rn
+    "Sdiv": {"rd": (16, 20), "rn": (0, 4), "rm": (8, 12)},                      # SDIV  cond 01110001 Rd 1111 Rm 0001 Rn
+    "Udiv": {"rd": (16, 20), "rn": (0, 4), "rm": (8, 12)},                      # UDIV  cond 01110011 Rd 1111 Rm 0001 Rn
+    "Mls": {"rd": (16, 20), "ra": (12, 16), "rm": (8, 12), "rn": (0, 4)},       # MLS   cond 00000110 Rd Ra Rm 1001 Rn
+    "ShiftBase": {"rd": (12, 16), "rn": (0, 4), "rm": (8, 12)},                 # LSL (register) cond 0001101S 0000 Rd Rm 0001 Rn   (rn = value, rm = amount)
+    "OpRegRegImm": {"rd": (12, 16), "rn": (16, 20)},                            # data processing (immediate)
+    "LdrStrBase": {"rn": (16, 20), "rt": (12, 16)},                             # LDR/STR (immediate)
+    "Ldrsb": {"rn": (16, 20), "rt": (12, 16)},
+    "Ldrh_imm": {"rn": (16, 20), "rt": (12, 16)},
+    "Ldrsh_imm": {"rn": (16, 20), "rt": (12, 16)},
+    "Ldrsh_reg": {"rn": (16, 20), "rt": (12, 16), "rm": (0, 4)},
+    "Adr": {"rd": (12, 16)},
+    "Ldr3": {"rt": (12, 16)},
+    "McrBase": {"crm": (0, 4), "opc2": (5, 8), "coproc": (8, 12), "rt": (12, 16), "crn": (16, 20), "opc1": (21, 24)},  # MCR/MRC cond 1110 opc1 L CRn Rt coproc opc2 1 CRm
+}
+
+
+def _arm_reference(ctx):
+    """R7: hand-written ARM encoders against the reference placement of their operands"""
+    from ..core import try_const
+    ctx.rule("C08.R7", "ARM (A32) instructions with a hand-written encode(): every operand is stored into the bit field the architecture manual assigns to it (reference table in sa/rules/c08.py)", floor=30)
+    rel = "ppci/arch/arm/arm_instructions.py"
+    mod = ctx.project.module(rel)
+    tokm = relocs.TokenModel(ctx.project, ctx.project.cls("ppci/arch/arm/isa.py", "ArmToken"))
+    n_cls = 0
+    for cls in [c for c in mod.tree.body if isinstance(c, ast.ClassDef)]:
+        enc = [f for f in cls.body if isinstance(f, ast.FunctionDef) and f.name == "encode"]
+        if not enc:
+            continue
+        ref = ARM_REFERENCE.get(cls.name)
+        if ref is None:
+            ctx.saw("classes", "%s:%s (custom encode, not in the reference table)" % (rel, cls.name))
+            continue
+        n_cls += 1
+        placed = {}
+        for n in ast.walk(enc[0]):
+            if not isinstance(n, ast.Assign):
+                continue
+            t = n.targets[0]
+            rng = None
+            if isinstance(t, ast.Subscript) and norm(t.value).startswith("tokens"):
+                sl = t.slice
+                if isinstance(sl, ast.Slice):
+                    lo, hi = try_const(sl.lower), try_const(sl.upper)
+                    rng = (lo, hi) if isinstance(lo, int) and isinstance(hi, int) else None
+                elif isinstance(try_const(sl), int):
+                    rng = (try_const(sl), try_const(sl) + 1)
+            elif isinstance(t, ast.Attribute) and norm(t.value).startswith("tokens") and t.attr in tokm.fields and len(tokm.fields[t.attr]) == 1:
+                rng = tuple(tokm.fields[t.attr][0])
+            if rng is None:
+                continue
+            for x in ast.walk(n.value):
+                if isinstance(x, ast.Attribute) and isinstance(x.value, ast.Name) and x.value.id == "self" and x.attr in ref:
+                    placed.setdefault(x.attr, []).append(rng)
+        site = "%s:%s" % (rel, cls.name)
+        for op, want in sorted(ref.items()):
+            got = placed.get(op, [])
+            ctx.ob("C08.R7", site, "operand `%s` of %s is encoded in bits [%d:%d)" % (op, cls.name, want[0], want[1]), bool(got) and all(g == want for g in got), construct="arm-field:%s.%s" % (cls.name, op),
+                   detail="stored to %s" % (got or "no bit field"))
+    ctx.need(n_cls >= 12, "ARM hand-written encoders not found (%d)" % n_cls)
